@@ -1,0 +1,23 @@
+//go:build verif
+
+package orderbuffer
+
+// Machine-checked contracts for /verif/govc (contract-based deductive verification).
+// This file contains comments only; it is compiled only with -tags verif and adds no code.
+
+//@ spec sortedBuf(rb *OrderBuffer) bool = forall i in 0..len(rb.Buffer) :: forall j in i..len(rb.Buffer) :: rb.Buffer[i].Round <= rb.Buffer[j].Round
+//@ spec wfBuf(rb *OrderBuffer) bool = sortedBuf(rb) && len(rb.Buffer) <= rb.max && rb.max > 0
+
+//@ func (*OrderBuffer).search
+//@   prop C46
+//@   requires rb != nil
+//@   requires sortedBuf(rb)
+//@   ensures 0 <= result && result <= len(rb.Buffer)
+//@   ensures forall i in 0..result :: rb.Buffer[i].Round <= roundNumber
+//@   ensures forall i in result..len(rb.Buffer) :: rb.Buffer[i].Round > roundNumber
+//@   modifies nothing
+//@   loop 1 header "for left < right"
+//@   loop 1 invariant 0 <= left && left <= right && right <= len(rb.Buffer)
+//@   loop 1 invariant forall i in 0..left :: rb.Buffer[i].Round <= roundNumber
+//@   loop 1 invariant forall i in right..len(rb.Buffer) :: rb.Buffer[i].Round > roundNumber
+//@   loop 1 decreases right - left
